@@ -398,9 +398,11 @@ func RowsResponse(cols []cqlspec.Column, rows [][]cqlspec.Value) *cqlspec.Respon
 func (n *Node) LocalRow() *cqlspec.Response {
 	s := n.Spec
 	// the node reports itself as the truth describes it (address changes etc. are visible)
+	// (the first matching row: further rows with the same host id are stale duplicates, see C16)
 	for _, t := range n.Cluster.Truth() {
 		if t.HostID == s.HostID {
 			s = t
+			break
 		}
 	}
 	cols := []cqlspec.Column{col("local", "key", cqlspec.Varchar), col("local", "data_center", cqlspec.Varchar), col("local", "rack", cqlspec.Varchar),
